@@ -15,6 +15,9 @@ inductive Reach (G : Graph) : Nat → Nat → Prop
   | refl (a : Nat) : Reach G a a
   | step {a b c : Nat} : Dep G a b → Reach G b c → Reach G a c
 
+/-- what `addTarget` follows from `a`: a dependency, or (for a hidden sub-target) the rule that generates it -/
+def Link (G : Graph) (a b : Nat) : Prop := Dep G a b ∨ (G.hasParent a = true ∧ b = G.pl a ∧ b ∈ G.nodes)
+
 /-! ### equations -/
 
 def addDepsF (G : Graph) (fuel : Nat) (ds : List Nat) (s : KSt) : KSt := addDeps (addTarget G fuel) ds s
@@ -24,7 +27,9 @@ theorem addTarget_zero (G : Graph) (s : KSt) (t : Nat) : addTarget G 0 s t = { s
 theorem addTarget_succ (G : Graph) (fuel : Nat) (s : KSt) (t : Nat) :
     addTarget G (fuel+1) s t =
       if t ∈ s.keep then s
-      else addDepsF G fuel (G.res t) (addDepsF G fuel (G.decl t) { s with keep := t :: s.keep }) := rfl
+      else
+        let s3 := addDepsF G fuel (G.res t) (addDepsF G fuel (G.decl t) { s with keep := t :: s.keep })
+        if G.hasParent t && G.nodes.contains (G.pl t) then addTarget G fuel s3 (G.pl t) else s3 := rfl
 
 theorem addDepsF_nil (G : Graph) (fuel : Nat) (s : KSt) : addDepsF G fuel [] s = s := rfl
 
@@ -49,13 +54,17 @@ theorem addTarget_oof (G : Graph) : ∀ (fuel : Nat) (s : KSt) (t : Nat), s.oof 
     rw [addTarget_succ]
     split
     · exact h
-    · exact addDepsF_oof G fuel ih _ _ (addDepsF_oof G fuel ih _ _ h)
+    · have h3 := addDepsF_oof G fuel ih (G.res t) _ (addDepsF_oof G fuel ih (G.decl t) { s with keep := t :: s.keep } h)
+      simp only
+      split
+      · exact ih _ _ h3
+      · exact h3
 
 /-! ### closure -/
 
 /-- progress: nothing is forgotten, and every newly kept target has all its dependencies kept -/
 def ANew (G : Graph) (s s' : KSt) : Prop :=
-  (∀ x ∈ s.keep, x ∈ s'.keep) ∧ ∀ x ∈ s'.keep, x ∉ s.keep → ∀ y, Dep G x y → y ∈ s'.keep
+  (∀ x ∈ s.keep, x ∈ s'.keep) ∧ ∀ x ∈ s'.keep, x ∉ s.keep → ∀ y, Link G x y → y ∈ s'.keep
 
 theorem ANew.refl (G : Graph) (s : KSt) : ANew G s s := ⟨fun _ h => h, fun x hx hn => absurd hx hn⟩
 
@@ -101,26 +110,50 @@ theorem addTarget_closure (G : Graph) : ∀ (fuel : Nat) (s : KSt) (t : Nat), (a
     · rename_i hin; exact ⟨ANew.refl .., hin⟩
     · rename_i hnin
       rw [if_neg hnin] at h
+      simp only at h ⊢
+      -- the state after the two dependency loops
+      generalize hs3 : addDepsF G fuel (G.res t) (addDepsF G fuel (G.decl t) { s with keep := t :: s.keep }) = s3 at h ⊢
+      have ho3 : s3.oof = false := by
+        cases hc : s3.oof
+        · rfl
+        · split at h
+          · rw [addTarget_oof G fuel s3 _ hc] at h; cases h
+          · rw [hc] at h; cases h
       have h2 : (addDepsF G fuel (G.decl t) { s with keep := t :: s.keep }).oof = false := by
         cases hc : (addDepsF G fuel (G.decl t) { s with keep := t :: s.keep }).oof
         · rfl
-        · rw [addDepsF_oof G fuel (addTarget_oof G fuel) _ _ hc] at h; cases h
+        · rw [← hs3, addDepsF_oof G fuel (addTarget_oof G fuel) _ _ hc] at ho3; cases ho3
       obtain ⟨hnA, hdecl⟩ := addDepsF_closure G fuel ih (G.decl t) _ h2
-      obtain ⟨hnB, hres⟩ := addDepsF_closure G fuel ih (G.res t) _ h
+      obtain ⟨hnB, hres⟩ := addDepsF_closure G fuel ih (G.res t) _ (by rw [hs3]; exact ho3)
+      rw [hs3] at hnB hres
       have hAB := hnA.trans hnB
-      have ht : t ∈ (addDepsF G fuel (G.res t) (addDepsF G fuel (G.decl t) { s with keep := t :: s.keep })).keep :=
-        hAB.1 t (List.mem_cons_self ..)
-      refine ⟨⟨fun x hx => hAB.1 x (List.mem_cons_of_mem _ hx), ?_⟩, ht⟩
+      -- the optional step to the parent rule
+      have hfin : ∃ s4, (if (G.hasParent t && G.nodes.contains (G.pl t)) = true then addTarget G fuel s3 (G.pl t) else s3) = s4 ∧
+          ANew G s3 s4 ∧ ((G.hasParent t = true ∧ G.pl t ∈ G.nodes) → G.pl t ∈ s4.keep) := by
+        split
+        · rename_i hc
+          rw [if_pos hc] at h
+          obtain ⟨hn, hp⟩ := ih s3 (G.pl t) h
+          exact ⟨_, rfl, hn, fun _ => hp⟩
+        · rename_i hc
+          refine ⟨_, rfl, ANew.refl .., fun hh => ?_⟩
+          exact absurd (by simp [hh.1, hh.2]) hc
+      obtain ⟨s4, hs4, hn34, hpar⟩ := hfin
+      rw [hs4]
+      have hall := hAB.trans hn34
+      have ht : t ∈ s4.keep := hall.1 t (List.mem_cons_self ..)
+      refine ⟨⟨fun x hx => hall.1 x (List.mem_cons_of_mem _ hx), ?_⟩, ht⟩
       intro x hx hns y hy
       by_cases hxt : x = t
       · subst hxt
-        rcases hy with hy | hy
-        · exact hnB.1 y (hdecl y hy)
-        · exact hres y hy
-      · exact hAB.2 x hx (by simp [hxt, hns]) y hy
+        rcases hy with (hy | hy) | ⟨hp, rfl, hn⟩
+        · exact hn34.1 y (hnB.1 y (hdecl y hy))
+        · exact hn34.1 y (hres y hy)
+        · exact hpar ⟨hp, hn⟩
+      · exact hall.2 x hx (by simp [hxt, hns]) y hy
 
 /-- every kept target has all its dependencies kept -/
-def Closed (G : Graph) (s : KSt) : Prop := ∀ x ∈ s.keep, ∀ y, Dep G x y → y ∈ s.keep
+def Closed (G : Graph) (s : KSt) : Prop := ∀ x ∈ s.keep, ∀ y, Link G x y → y ∈ s.keep
 
 theorem Closed.step {G : Graph} {s s' : KSt} (hc : Closed G s) (hn : ANew G s s') : Closed G s' := by
   intro x hx y hy
@@ -131,7 +164,7 @@ theorem Closed.step {G : Graph} {s s' : KSt} (hc : Closed G s) (hn : ANew G s s'
 theorem Closed.reach {G : Graph} {s : KSt} (hc : Closed G s) {a z : Nat} (p : Reach G a z) : a ∈ s.keep → z ∈ s.keep := by
   induction p with
   | refl => exact id
-  | step e _ ih => intro ha; exact ih (hc _ ha _ e)
+  | step e _ ih => intro ha; exact ih (hc _ ha _ (Or.inl e))
 
 /-- a state transformer that only ever calls `addTarget`: monotone, keeps closedness, oof sticky -/
 def Grows (G : Graph) (f : KSt → KSt) : Prop :=
@@ -356,8 +389,17 @@ theorem addTarget_fuel (G : Graph) (hwf : GWF G) : ∀ (fuel : Nat) (s : KSt) (t
       obtain ⟨hA, lA⟩ := addDepsF_fuel G fuel ih (G.decl t) _ (hwf t ht).1 hk1
       obtain ⟨hB, lB⟩ := addDepsF_fuel G fuel ih (G.res t) _ (hwf t ht).2 hA
       simp only [List.length_cons] at lA
-      obtain ⟨b1, b2, b3, b4⟩ := hB
-      exact ⟨⟨b1, b2, b3, by omega⟩, by omega⟩
+      simp only
+      split
+      · rename_i hc
+        have hpn : G.pl t ∈ G.nodes := by
+          simp only [Bool.and_eq_true, List.contains_eq_mem, decide_eq_true_eq] at hc
+          exact hc.2
+        obtain ⟨hC, lC⟩ := ih _ (G.pl t) hB hpn
+        obtain ⟨c1, c2, c3, c4⟩ := hC
+        exact ⟨⟨c1, c2, c3, by omega⟩, by omega⟩
+      · obtain ⟨b1, b2, b3, b4⟩ := hB
+        exact ⟨⟨b1, b2, b3, by omega⟩, by omega⟩
 
 /-- with `--conservative` (no test pass) `targetsToRemove` never reaches a recursion bound -/
 theorem keepSet_fuel_conservative (G : Graph) (hwf : GWF G) (Q : Query) (hc : Q.includeTests = true)
